@@ -10,7 +10,7 @@ from ..modelgen import lang_and_model, build_language, build_model
 PROPERTY = 'C11'
 RULE = ('operation histories over graphs with 1-4 attackers: attacker.compromise(node), node.compromise(attacker), '
         'both undo variants (also on pairs that are not compromised), attach_attackers (model entry points incl. '
-        'non-existent step names and several steps per asset), add_attacker with reached steps, remove_attacker '
+        'non-existent step names and several steps per asset), add_attacker with reached steps (attackers may share a name), deepcopy of the graph (the history continues on the copy), remove_attacker '
         '(0, 1, >=2 reached steps); on hand-built graphs and on graphs generated from G_lang x G_model. Oracle: '
         'reference relation R (attackers x nodes) updated by the operations; after every operation '
         'n in a.reached <=> a in n.compromised_by <=> (a,n) in R, no duplicates on either side, '
@@ -94,7 +94,8 @@ def check_case(case) -> Outcome:
             elif k == 'add':
                 if not nodes:
                     continue
-                a = Attacker(name=f'X{len(live) + len(dead)}', entry_points=[], reached_attack_steps=[])
+                # names are not identities: several attackers may share one
+                a = Attacker(name=['Eve', 'Eve', f'X{len(live) + len(dead)}'][len(o[1]) % 3], entry_points=[], reached_attack_steps=[])
                 reached = []
                 for i in o[1]:
                     if nodes[i % len(nodes)].id not in reached:
@@ -112,6 +113,20 @@ def check_case(case) -> Outcome:
                 g.remove_attacker(a)
                 dead[id(a)] = live.pop(id(a))
                 R = {(x, n) for (x, n) in R if x != id(a)}
+            elif k == 'copy':
+                import copy as _copy
+                old_nodes = {n.id: id(n) for n in g.nodes}
+                old_atts = {a.id: id(a) for a in g.attackers}
+                g2 = _copy.deepcopy(g)
+                node_map = {old_nodes[n.id]: id(n) for n in g2.nodes if n.id in old_nodes}
+                att_map = {old_atts[a.id]: a for a in g2.attackers if a.id in old_atts}
+                if len(att_map) != len(live) or len(node_map) != len(old_nodes):
+                    out.add('copy-lost-attackers-or-nodes', '')
+                    break
+                R = {(id(att_map[x]), node_map[n]) for (x, n) in R if x in att_map and n in node_map}
+                live = {id(a): a for a in att_map.values()}
+                g = g2
+                model = g.model
             elif k == 'attach':
                 if model is None:
                     continue
@@ -152,6 +167,7 @@ def check_case(case) -> Outcome:
 def _ops(n, generated):
     small = st.integers(0, 15)
     alts = [st.tuples(st.sampled_from(['a_comp', 'n_comp', 'a_comp', 'n_comp', 'a_undo', 'n_undo']), small, small),
+            st.just(('copy',)),
             st.tuples(st.just('add'), st.lists(small, max_size=4)),
             st.tuples(st.just('remove'), small)]
     if generated:
